@@ -75,7 +75,10 @@ class C02(Check):
             return self._mux_qudit_reset(tape, ctx)
         clifford = tape.chance(1, 5, "clifford-circuit?")
         deep_clifford = clifford and tape.chance(1, 2, "deep-clifford?")
-        g = qgen.Gen(tape, clifford_only=clifford, allow_channels=False, allow_qudits=not clifford,
+        # now and then with channels too: a keyed channel's record (which Kraus operator / mixture branch was taken)
+        # is a recorded result like a measurement's
+        with_channels = (not clifford) and tape.chance(1, 6, "channels?")
+        g = qgen.Gen(tape, clifford_only=clifford, allow_channels=with_channels, allow_qudits=not clifford,
                      leaf_bits_cap=(5.0 if deep_clifford else 8.0), max_ops=(36 if deep_clifford else 11),
                      allow_subcircuits=not deep_clifford)
         g.product_clifford_gates = clifford and not deep_clifford
@@ -117,6 +120,8 @@ class C02(Check):
         bits = max(g.leaf_bits, 0.5)
         max_reps = max(1, int(8.6 // bits))
         reps = 1 + tape.draw(min(3, max_reps), "reps")
+        if "swap-inside-entangled-block" in g.features and max_reps >= 2:
+            reps = max(reps, 2)      # what a repetition leaves behind in shared structures shows in the next one
         # simulator configuration
         product_clifford = "clifford-only-as-product" in g.features
         if clifford and product_clifford:
@@ -137,6 +142,10 @@ class C02(Check):
         if kind == "clifford":
             weights = [4, 3, 2, 1, 0]
         entry = entries[tape.weighted(weights, "entry")]
+        if entry == "sample" and g.has_nonunitary_channel:
+            # cirq.sample() documents its choice: anything that is not unitary goes to the density-matrix
+            # simulator, which applies keyed channels whole and records nothing for them
+            cfg = qdrive.SimConfig("dm", dtype=dtype, split=split)
         if product_clifford and tape.chance(2, 3, "mux-on-product-clifford?"):
             entry = "sample"
             ctx.probe("mux:clifford-only-as-product")
@@ -166,8 +175,9 @@ class C02(Check):
             if entry == "run_sweep" and bits * reps * 2 <= 8.6 and tape.chance(1, 2, "unparameterized-sweep?"):
                 points = 2      # sweep points over a symbol the circuit does not use are independent samples
                 ctx.probe("entry:run_sweep-unused-symbol")
+            channel_keys = tuple(k for k in ("k", "l") if k in {str(x) for x in cirq.measurement_key_names(circuit)})
             n_leaves = qdrive.check_run(P, circuit, cfg, reps, ctx, max_leaves=400, entry=entry, int_seed=int_seed,
-                                        sweep_points=points)
+                                        sweep_points=points, channel_keys=channel_keys)
         else:
             order = sorted(circuit.all_qubits())
             if len(order) > 1 and tape.chance(1, 3, "permute-order?"):
